@@ -406,6 +406,7 @@ type c07tp struct {
 }
 
 type c07world struct {
+	lastMod map[int]string // last operation that modified the object in place ("" = none since creation)
 	objs   []*c07obj
 	tps    []*c07tp
 	putBy  map[*[]byte]string
@@ -697,6 +698,14 @@ func (w *c07world) apply(st *c07step, check bool) (v *c07viol) {
 	result := -1       // handle whose value is (re)defined by this op
 	cachedPath := false // ReverseComplement answered from the cached link
 	var panicked interface{}
+	if w.lastMod == nil {
+		w.lastMod = map[int]string{}
+	}
+	prevMod := w.lastMod[st.A]
+	switch st.Op {
+	case "RCin", "MutSeq", "MutQual", "SetQual", "SetFeat", "SetAttr":
+		defer func(a int, op string) { w.lastMod[a] = op }(st.A, st.Op)
+	}
 	func() {
 		defer func() { panicked = recover() }()
 		switch st.Op {
@@ -738,7 +747,12 @@ func (w *c07world) apply(st *c07step, check bool) (v *c07viol) {
 				case !w.objs[e].alive:
 					v = &c07viol{"ReverseComplement/cached-original:returns-recycled-object", what + " — obj" + fmt.Sprint(e) + " had been recycled"}
 				case !strings.EqualFold(string(seq), string(nm.seq)) || !bytes.Equal(qual, wq):
-					v = &c07viol{"ReverseComplement/cached-original:stale-value", what}
+					key := "ReverseComplement/cached-original:stale-value"
+					if prevMod == "RCin" {
+						// the receiver itself was reverse-complemented in place since the link was made
+						key += ":receiver-reverse-complemented-in-place"
+					}
+					v = &c07viol{key, what}
 				default:
 					v = &c07viol{"ReverseComplement/cached-original:result-is-a-live-object-held-elsewhere", what + " — every later modification or Recycle of one handle changes the other"}
 				}
@@ -908,7 +922,11 @@ func (w *c07world) apply(st *c07step, check bool) (v *c07viol) {
 		case len(w.events) > 0:
 			return &c07viol{"pool/" + w.events[0], fmt.Sprintf("%s; during %s GetSlice was answered with a pooled pointer to a slice that is still in use (%s)", d, st.Op, strings.Join(w.events, ", "))}
 		case i == result && opName == "ReverseComplement" && cachedPath:
-			return &c07viol{"ReverseComplement/cached-original:stale-value", fmt.Sprintf("ReverseComplement(obj%d) answered from the cached link: %s", st.A, d)}
+			key := "ReverseComplement/cached-original:stale-value"
+			if prevMod == "RCin" {
+				key += ":receiver-reverse-complemented-in-place"
+			}
+			return &c07viol{key, fmt.Sprintf("ReverseComplement(obj%d) answered from the cached link: %s", st.A, d)}
 		case i == result:
 			return &c07viol{opName + "/wrong-result:" + field, d}
 		default:
